@@ -199,6 +199,14 @@ func gen(c *core.Ctx) error {
 			}
 		}
 	}
+	genTyped(c)
+	// 2b. large first frame towards a receiver that has itself already sent protected frames
+	for _, n := range []int{M - 32, M - 16, M - 15, M} {
+		d := &desc{Setup: setups()[1], Dirs: []bool{false, true}, API: []string{"complete", "complete"},
+			Msgs: [][]ss.Msg{{{Kind: "direct", Chunks: []ss.Data{ss.Pay(2, 7)}}}, {{Kind: "direct", Chunks: []ss.Data{ss.Pay(n%200, n)}}}}}
+		try(d)
+		c.Count("size-first-frame-after-peer-sent")
+	}
 	// 3. random multi-message, multi-phase histories
 	nRand := 60
 	if !c.Quick() {
@@ -252,6 +260,10 @@ func sizeClass(n int) string {
 }
 
 func replay(raw json.RawMessage) error {
+	var t typedCase
+	if err := json.Unmarshal(raw, &t); err == nil && t.Typed {
+		return runTyped(t)
+	}
 	var d desc
 	if err := json.Unmarshal(raw, &d); err != nil {
 		return err
